@@ -34,6 +34,11 @@ Cm7 == << Bad(3, 10), K(0, 4, TRUE, "f12", Full3), K(3, 1, TRUE, "f4", Bmp1) >>
 Cm8 == << Bad(3, 10), Bad(0, 4), Bad(3, 1), K(0, 3, TRUE, "f4", Bmp2) >>
 Cm9 == << Bad(0, 4), K(3, 1, TRUE, "f12", Full3), K(1, 0, FALSE, "bad", <<>>) >>
 
+\* a legacy Macintosh subtable as the only usable one: 196 (A dieresis) is Mac code 0x80, 233 (e acute) 0x8E
+MacMap == << <<65, 2>>, <<66, 3>>, <<102, 6>>, <<105, 7>>, <<108, 8>>, <<196, 4>>, <<233, 5>> >>
+Cm10 == << K(1, 0, TRUE, "f0mac", MacMap) >>
+Cm11 == << Bad(3, 1), K(1, 0, TRUE, "f0mac", MacMap), Bad(0, 4) >>
+
 W1 == <<500, 250, 600, 620, 640, 660, 300, 280, 270, 550, 560, 10, 20, 570, 800, 810>>
 W2 == <<1000, 0, 722, 667, 667, 722, 333, 278, 278, 556, 556, 0, 333, 600, 830, 830>>
 W3 == <<600, 600, 600, 600, 600, 600, 600, 600, 600, 600, 600, 600, 600, 600, 600, 600>>
@@ -114,7 +119,7 @@ Pl(a, b, c, d, e, f, k) == [gl |-> a, gf |-> b, gs |-> c, pl |-> d, pf |-> e, ps
 
 ---------------------------------------------------------------------------
 (* generation: layout *)
-GLCmapMenu  == <<Cm1, Cm2, Cm3, Cm4, Cm5, Cm6, Cm7, Cm8, Cm9>>
+GLCmapMenu  == <<Cm1, Cm2, Cm3, Cm4, Cm5, Cm6, Cm7, Cm8, Cm9, Cm10, Cm11>>
 GLWidthMenu == <<W1, W2, W3, W4, W5, W6, W7>>
 GLMarkMenu  == << <<>>, <<11, 12>> >>
 GLPlanMenu  == << Pl(0, 0, 0, 0, 0, 0, 0), Pl(0, 0, 0, 0, 0, 0, 0), Pl(0, 0, 0, 0, 0, 0, 0), Pl(2, 2, 1, 0, 0, 0, 0), Pl(3, 3, 2, 0, 0, 0, 0),
@@ -132,9 +137,9 @@ GLSwMenuG   == << Sw(TRUE, <<>>), Sw(TRUE, <<>>), Sw(FALSE, <<>>), Sw(FALSE, <<"
                   Sw(FALSE, <<"liga", "smcp", "test">>), Sw(FALSE, <<"ccmp", "test">>) >>
 GLSwMenuP   == << Sw(TRUE, <<>>), Sw(TRUE, <<>>), Sw(FALSE, <<>>), Sw(FALSE, <<"kern">>), Sw(FALSE, <<"cpsp", "kern">>),
                   Sw(FALSE, <<"mark">>) >>
-GLChars     == {65, 66, 67, 68, 102, 105, 108, 769, 90, 128512}
+GLChars     == {65, 66, 67, 68, 102, 105, 108, 769, 90, 128512, 196, 233}
 GLWords     == << <<102, 102, 105>>, <<102, 102, 108>>, <<102, 102>>, <<102, 105>>, <<102, 108>>, <<65, 65, 65>>,
-                  <<65, 769>>, <<65, 66>>, <<102, 102, 105>>, <<102, 102, 108>> >>
+                  <<65, 769>>, <<65, 66>>, <<102, 102, 105>>, <<102, 102, 108>>, <<65, 196, 233>>, <<233, 102, 105>> >>
 NoWords     == <<>>
 NoFlags     == << [horiz |-> TRUE, min |-> FALSE, cross |-> FALSE, over |-> FALSE] >>
 NoPairs     == << <<>> >>
